@@ -108,7 +108,8 @@ def pick_paths(rng, st, prof, kind):
     """argument lists for add / rm / restore: mostly meaningful, sometimes not"""
     pool = []
     if kind == "add":
-        pool = st.files * 2 + st.dirs + [b"."] + [p for p in st.tracked if p not in st.s.files]
+        pool = st.files * 2 + st.dirs + [b"."] + [p for p in st.tracked if p not in st.s.files] \
+            + [d for d in st.tdirs if d not in st.s.dirs and d not in st.s.files]
     elif kind == "rm":
         pool = st.tracked * 2 + st.tdirs
     elif kind == "restore":
